@@ -21,10 +21,19 @@ def skey(spec):
 # ----------------------------------------------------------------------------- rendering
 
 
+EXNS = "http://ex.org/"
+_STYLE = {"prefixed": False, "base": False}
+
+
 def r_term(t):
     if t[0] == "v":
         return "?" + t[1]
     if t[0] == "u":
+        if t[1].startswith(EXNS) and t[1][len(EXNS) :].isalnum():
+            if _STYLE["prefixed"]:
+                return "ex:" + t[1][len(EXNS) :]  # the prefix is NOT declared in the text: it comes from the graph's bindings
+            if _STYLE["base"]:
+                return "<" + t[1][len(EXNS) :] + ">"  # relative to the BASE declared once, before the first operation
         return "<" + t[1] + ">"
     if t[0] == "b":
         return "_:" + t[1]
@@ -98,7 +107,7 @@ def r_graphref(g, allow_kw=True):
         return "DEFAULT"
     if g in ("NAMED", "ALL"):
         return g
-    return "GRAPH <" + g[1] + ">"
+    return "GRAPH " + r_term(g)
 
 
 def r_op(op):
@@ -112,28 +121,44 @@ def r_op(op):
     if k == "modify":
         s = ""
         if op.get("with"):
-            s += f"WITH <{op['with'][1]}> "
+            s += f"WITH {r_term(op['with'])} "
         if op.get("delete") is not None:
             s += f"DELETE {{ {r_quads(op['delete'])} }} "
         if op.get("insert") is not None:
             s += f"INSERT {{ {r_quads(op['insert'])} }} "
         for u in op.get("using", []):
-            s += f"USING <{u[1]}> "
+            s += f"USING {r_term(u)} "
         for u in op.get("using_named", []):
-            s += f"USING NAMED <{u[1]}> "
+            s += f"USING NAMED {r_term(u)} "
         return s + f"WHERE {{ {r_pattern(op['where'])} }}"
     if k in ("clear", "drop"):
         return f"{k.upper()} {'SILENT ' if op.get('silent') else ''}{r_graphref(op['g'])}"
     if k in ("add", "move", "copy"):
         def gd(g):
-            return "DEFAULT" if g == "DEFAULT" else "<" + g[1] + ">"
+            return "DEFAULT" if g == "DEFAULT" else r_term(g)
 
         return f"{k.upper()} {'SILENT ' if op.get('silent') else ''}{gd(op['src'])} TO {gd(op['dst'])}"
     raise ValueError(k)
 
 
-def r_request(ops):
-    return " ;\n".join(r_op(o) for o in ops)
+def r_request(ops, prefixed=False, base=False):
+    _STYLE["prefixed"], _STYLE["base"] = prefixed, base
+    try:
+        text = " ;\n".join(r_op(o) for o in ops)
+    finally:
+        _STYLE["prefixed"], _STYLE["base"] = False, False
+    return (f"BASE <{EXNS}>\n" if base else "") + text
+
+
+def subst_ns(x, ns):
+    """deep copy of an operation AST with every IRI of the ex: namespace moved to `ns` (what the text means when ex: is bound to ns)"""
+    if isinstance(x, list):
+        if len(x) == 2 and x[0] == "u" and isinstance(x[1], str):
+            return ["u", ns + x[1][len(EXNS) :]] if x[1].startswith(EXNS) and x[1][len(EXNS) :].isalnum() else list(x)
+        return [subst_ns(y, ns) for y in x]
+    if isinstance(x, dict):
+        return {k: subst_ns(v, ns) for k, v in x.items()}
+    return x
 
 
 # ----------------------------------------------------------------------------- evaluation
